@@ -233,7 +233,7 @@ func genInput(rt *rapid.T) (string, []string) {
 
 func TestEntryPointsAgree(t *testing.T) {
 	hx.Rule("entry_points_agree", "inputs with >= 1 non-semicolon token (valid, hostile layout, single-token corruptions, multi-statement scripts with stray semicolons, lexical soup with and without lexical errors) through 17 parse/validate/recovery entry points; all accept or all reject, trees equal, error codes equal; non-trivial = multi-statement, rejected or stray semicolon; distinct = class + token shape")
-	agreeCheck.Rapid(t, hx.N(4000, 200000), func(rt *rapid.T) AgreeCase {
+	agreeCheck.Rapid(t, hx.N(20000, 200000), func(rt *rapid.T) AgreeCase {
 		s, cl := genInput(rt)
 		nt := false
 		for _, c := range cl {
@@ -305,7 +305,7 @@ var batchCheck = hx.NewCheck("batch_equals_individual", oracleBatch)
 
 func TestBatchEqualsIndividual(t *testing.T) {
 	hx.Rule("batch_equals_individual", "lists of 1-6 inputs (as entry_points_agree); ParseMultiple/ValidateMultiple must return exactly the individual results or fail naming the first failing index with the same error code; non-trivial = a failing query that is not the first, or >= 2 failing queries; distinct = verdict vector + sizes")
-	batchCheck.Rapid(t, hx.N(2500, 100000), func(rt *rapid.T) BatchCase {
+	batchCheck.Rapid(t, hx.N(12500, 100000), func(rt *rapid.T) BatchCase {
 		n := rapid.IntRange(1, 6).Draw(rt, "nq")
 		var qs []string
 		var vec []string
@@ -387,7 +387,7 @@ var optCheck = hx.NewCheck("parser_variants_agree_under_options", oracleOpt)
 
 func TestParserVariantsAgreeUnderOptions(t *testing.T) {
 	hx.Rule("parser_variants_agree_under_options", "the three statement loops of the low-level parser (plain, context, position tracking) on one parser configuration (strict mode on/off, dialect) and one input; same verdict, tree and error code; non-trivial = strict mode with a stray semicolon, or a non-default dialect; distinct = options + input class + size")
-	optCheck.Rapid(t, hx.N(2500, 100000), func(rt *rapid.T) OptCase {
+	optCheck.Rapid(t, hx.N(12500, 100000), func(rt *rapid.T) OptCase {
 		s, cl := genInput(rt)
 		c := OptCase{SQL: s, Strict: rapid.Bool().Draw(rt, "strict"), Dialect: rapid.SampledFrom([]string{"", "postgresql", "mysql", "sqlserver", "sqlite", "oracle"}).Draw(rt, "dialect")}
 		stray := strings.Contains(s, ";;") || strings.HasPrefix(strings.TrimSpace(s), ";")
